@@ -248,6 +248,22 @@ def run_for_property(prop, seed=0):
         evp.write_text(json.dumps(ev, indent=1) + "\n")
     print(f"[{prop}] selftest: breaking {summ['detected']}/{summ['variants_breaking']} detected, "
           f"preserving {summ['silent']}/{summ['variants_preserving']} silent, skipped {summ['skipped']}")
+    # systematic single-edit mutants of the anchored mechanisms: a measurement, not a gate
+    limit = int(os.environ.get("LCMSA_MUTANTS", "120"))
+    if limit > 0:
+        from lcmsa import mutgen
+
+        sweep = mutgen.run(prop, mutgen.anchors_of(prop), seed=seed, limit=limit)
+        if evp.exists():
+            ev = json.loads(evp.read_text())
+            ev["coverage"]["mutation_sweep"] = {
+                "what": "single-edit AST mutants (14 operators) of the functions named in the property's anchors, analysed "
+                        "statically with this property's rules; survivors are equivalent edits or blind spots (not violations)",
+                **sweep,
+            }
+            evp.write_text(json.dumps(ev, indent=1) + "\n")
+        print(f"[{prop}] mutation sweep: {sweep['killed']} refuted, {sweep['undecided']} undecided, "
+              f"{sweep['survived']} survived of {sweep['generated']} single-edit mutants of the anchored functions")
     for r in table:
         if r.get("ok") is False:
             print(f"SELFTEST-MISS {r['id']} expect={r['expect']} fired={r.get('fired')} undecided={r.get('undecided')} {r.get('why', '')}")
